@@ -99,10 +99,17 @@ func probes(tr *vh.Trace, r *rand.Rand, who string, bc *core.Blockchain, hh uint
 	if len(refFlat) == 0 {
 		return
 	}
-	for n := 0; n < 4; n++ {
+	for n := 0; n < 5; n++ {
 		it := refFlat[r.Intn(len(refFlat))]
+		if n == 4 { // one of the longest keys (deepest trie paths)
+			for tries := 0; tries < 6; tries++ {
+				if c := refFlat[r.Intn(len(refFlat))]; len(c.K) > len(it.K) {
+					it = c
+				}
+			}
+		}
 		key := bytesOf(it.K)
-		switch r.Intn(3) {
+		switch r.Intn(3) * min(1, 4-n) {
 		case 1: // absent: extension of a present key
 			key = append(append([]byte{}, key...), byte(r.Intn(256)))
 		case 2: // absent or present: truncated key
